@@ -522,6 +522,8 @@ def real_cases(rng, n, fail_rate):
                 c["ifail"] = rng.randint(0, N)
             else:
                 c["tfail"] = [rng.randint(0, N - 1)]
+        if backend == "multiprocessing":
+            c["return_as"] = "list"       # MultiprocessingBackend does not support generators (documented ValueError)
         cases.append(c)
     return cases
 
